@@ -38,8 +38,8 @@ FAMS = ["AsyncFIFO", "CDC", "CDCSame", "BusSync", "CDCReset"]
 
 def plan(tier):
     if tier == "quick":
-        return [("AsyncFIFO", 60), ("CDC", 60), ("CDCSame", 16), ("BusSync", 80), ("CDCReset", 40)]
-    return [("AsyncFIFO", 3000), ("CDC", 3000), ("CDCSame", 300), ("BusSync", 4000), ("CDCReset", 2000)]
+        return [("AsyncFIFO", 60), ("CDC", 60), ("CDCSame", 16), ("BusSync", 80), ("CDCReset", 40), ("AXILiteCDC", 40)]
+    return [("AsyncFIFO", 3000), ("CDC", 3000), ("CDCSame", 300), ("BusSync", 4000), ("CDCReset", 2000), ("AXILiteCDC", 2000)]
 
 
 def count_dom(schedule, d):
@@ -50,6 +50,16 @@ def count_dom(schedule, d):
 def generate(family, rng, tier):
     n_ticks = rng.choice([300, 600, 1000])
     scn = {"family": family}
+    if family == "AXILiteCDC":
+        # AXILiteClockDomainCrossing: memory semantics through five stream crossings (oracle and agents of C09)
+        from props import c09
+        n = rng.randint(15, 40)
+        sched, desc = cdc.gen_schedule(rng, n_ticks, 2)
+        scn.update(params={"family": "axil_cdc"}, max_out=rng.choice([1, 2, 4]),
+                   bready=prng.pattern(rng, 300, rng.choice([1.0, 0.6, 0.3])), rready=prng.pattern(rng, 300, rng.choice([1.0, 0.6, 0.3])),
+                   ops=c09.gen_axil_ops(rng, n, 4, lambda r: 0x40 + r.randrange(8)), slave=c09.slave_cfg(rng),
+                   schedule=sched, sched_desc=desc, meta=[rng.getrandbits(16) for _ in range(64)] if rng.random() < 0.8 else [0])
+        return scn
     if family == "BusSync":
         # ratio <= 3: restrict schedule styles to periodic with ratio <= 3 or adversarial with bounded bias
         style = rng.choice(["periodic", "periodic", "adversarial"])
@@ -222,6 +232,12 @@ class ResetPulser(Agent):
 
 def run(scn):
     fam = scn["family"]
+    if fam == "AXILiteCDC":
+        from props import c09
+        res = c09.run1(scn)
+        for v in res["violations"]:
+            v["prop"] = "C05"
+        return res
     if fam == "BusSync":
         return run_bussync(scn)
     return run_stream(scn)
